@@ -43,6 +43,10 @@ pub struct Case {
     /// history ends there; should the call be rejected, it has to be without effect like any other rejected call.
     #[serde(default)]
     pub self_parent: Option<u32>,
+    /// add_parent(parent, child) that closes a cycle of two or more present terms (`child` is an ancestor of
+    /// `parent` by the calls before it); treated like `self_parent`
+    #[serde(default)]
+    pub closing: Option<(u32, u32)>,
 }
 
 struct Run {
@@ -77,12 +81,13 @@ fn execute(c: &Case, only_ok: bool, present: &BTreeSet<u32>) -> Result<Run, Stri
             parent_results.push(b.add_parent(*p, *ch).is_ok());
         }
         let mut self_parent_ok = None;
-        if let (Some(x), false) = (c.self_parent, only_ok) {
-            let ok = b.add_parent(x, x).is_ok();
-            self_parent_ok = Some(ok);
+        let closers = c.self_parent.map(|x| (x, x)).into_iter().chain(c.closing);
+        for (p, ch) in closers.filter(|_| !only_ok) {
+            let ok = b.add_parent(p, ch).is_ok();
+            self_parent_ok = Some(self_parent_ok.unwrap_or(false) || ok);
             if ok {
                 // not continued (see Case::self_parent)
-                return Run { ont: Err("history ends at an accepted add_parent(x, x)".into()), parent_results, ann_results: vec![], self_parent_ok };
+                return Run { ont: Err("history ends at an accepted add_parent call that closes a cycle".into()), parent_results, ann_results: vec![], self_parent_ok };
             }
         }
         let mut b = b.connect_all_terms();
@@ -176,13 +181,16 @@ pub fn check(c: &Case, stats: &mut Stats) -> CheckResult {
         };
         ensure!(full.parent_results[i] == exp, format!("add_parent/result/{class}"), "add_parent({p},{ch}) returned {}, terms present: {present:?}", if full.parent_results[i] { "Ok" } else { "Err" });
     }
-    match (c.self_parent, full.self_parent_ok) {
+    if let Some((p, ch)) = c.closing {
+        ensure!(present.contains(&p) && present.contains(&ch), "harness/bad-case", "the cycle-closing call names present terms");
+    }
+    match (c.self_parent.or(c.closing.map(|x| x.0)), full.self_parent_ok) {
         (Some(x), Some(true)) if !present.contains(&x) => return fail("add_parent/result/both-absent", format!("add_parent({x},{x}) returned Ok, terms present: {present:?}")),
         (Some(_), Some(true)) => {
-            stats.label("add_parent(x,x)-accepted:history-ends");
+            stats.label(if c.self_parent.is_some_and(|x| present.contains(&x)) { "add_parent(x,x)-accepted:history-ends" } else { "cycle-closing-add_parent-accepted:history-ends" });
             return Ok(());
         }
-        (Some(x), Some(false)) if present.contains(&x) => stats.label("add_parent(x,x)-rejected-for-a-present-term"),
+        (Some(x), Some(false)) if present.contains(&x) => stats.label("cycle-closing-add_parent-rejected"),
         _ => {}
     }
     for (i, a) in c.ann.iter().enumerate() {
@@ -383,7 +391,21 @@ fn strategy(tier: Tier) -> BoxedStrategy<Case> {
                 1 => Some(absent(u32::from(dup_sel))),
                 _ => None,
             };
-            Case { terms, parents, ann, version: (version.0 % 10000, version.1, version.2), version_at, defaults, self_parent }
+            // and one in sixteen with the reverse of an earlier accepted link (a cycle of two terms) or of a chain of two links
+            let closing = if dup_sel % 16 == 2 {
+                let ok: Vec<(u32, u32)> = parents.iter().copied().filter(|(p, ch)| used.contains(p) && used.contains(ch)).collect();
+                if ok.is_empty() {
+                    None
+                } else {
+                    let (p, ch) = ok[pick(dup_sel, ok.len())];
+                    // a grandparent of ch, if the calls name one
+                    let up = ok.iter().find(|(_, c2)| *c2 == p).map(|(pp, _)| *pp);
+                    Some((ch, if dup_sel & 32 == 0 { up.unwrap_or(p) } else { p }))
+                }
+            } else {
+                None
+            };
+            Case { terms, parents, ann, version: (version.0 % 10000, version.1, version.2), version_at, defaults, self_parent, closing }
         })
         .boxed()
 }
@@ -419,7 +441,25 @@ pub fn bulk_history(n: u32, sel: u32) -> Case {
         ann.push(AnnOp { kind: (k % 3) as u8, rec: 10 + k as u32, name: format!("rec{k} (rejected call)"), term: Some(absent[k % absent.len()]) });
         ann.push(AnnOp { kind: ((k + 1) % 3) as u8, rec: 100 + k as u32, name: format!("only rejected {k}"), term: Some(absent[(k + 2) % absent.len()]) });
     }
-    Case { terms, parents, ann, version: (2024, 3, 4), version_at: 1, defaults: false, self_parent: None }
+    Case { terms, parents, ann, version: (2024, 3, 4), version_at: 1, defaults: false, self_parent: None, closing: None }
+}
+
+/// A chain of `n` terms (ids ascending or descending with depth) with accepted and rejected annotate_* calls that
+/// name terms at many depths: every accepted call has to walk up the whole chain.
+pub fn deep_history(n: u32, descending: bool) -> Case {
+    let id = |depth: u32| if descending { 1000 + (n - depth) } else { 1000 + depth };
+    let terms: Vec<(u32, String)> = (0..n).map(|d| (id(d), format!("depth {d}"))).collect();
+    let mut parents: Vec<(u32, u32)> = (1..n).map(|d| (id(d - 1), id(d))).collect();
+    parents.push((id(n - 1), 999)); // absent child
+    parents.push((5_000_000, id(n / 2))); // absent parent
+    let mut ann = Vec::new();
+    for (k, d) in [n - 1, n / 2, 31, 32, 64, 65, 66, 67, 127, 128, 129, 255, 256, 257, 258].into_iter().filter(|d| *d < n).enumerate() {
+        let kind = (k % 3) as u8;
+        ann.push(AnnOp { kind, rec: 10 + k as u32, name: format!("at depth {d}"), term: Some(id(d)) });
+        ann.push(AnnOp { kind, rec: 10 + k as u32, name: format!("at depth {d} (rejected call)"), term: Some(999) });
+        ann.push(AnnOp { kind: (kind + 1) % 3, rec: 200 + k as u32, name: "only rejected".into(), term: Some(5_000_000 + d) });
+    }
+    Case { terms, parents, ann, version: (2025, 1, 2), version_at: 2, defaults: false, self_parent: None, closing: None }
 }
 
 impl Property for C15 {
@@ -427,7 +467,7 @@ impl Property for C15 {
         "C15"
     }
     fn rule(&self) -> String {
-        "Generated call histories in the order the Builder typestates allow: new_term* (duplicates, ids dense / sparse / borders) -> add_parent* over present and absent ids (present pairs keep the graph acyclic; absent ids are neighbours, far values, the borders 0 / 1 / 9_999_999, values >= 10^7 and near u32::MAX, and aliases of present ids under power-of-two masks / decimal moduli such as id + k*2^24; one history in eight closes with add_parent(x, x): accepted for a present x on the unchanged tree, where the history then ends, and without effect if it is rejected) -> add_gene/add_*_disease and annotate_* over present and absent terms (failing calls carry a different record name) -> calculate_information_content -> build_minimal / build_with_defaults, set_hpo_version in a generated typestate; 20-50 % of the calls fail by construction. Stateful oracle: an interpreter of the history over plain sets predicts every Ok/Err; the built ontology is walked through the complete read API under catch_unwind (every handed-out id must resolve); its snapshot must equal the reference model of the successful calls AND the snapshot of the ontology built from the successful calls alone. evaluations = Builder calls. Non-trivial = >=1 failing add_parent with a present parent, >=1 failing annotate_*, and a later successful annotate on the same record; distinct by hash of the history.".into()
+        "Generated call histories in the order the Builder typestates allow: new_term* (duplicates, ids dense / sparse / borders) -> add_parent* over present and absent ids (present pairs keep the graph acyclic; absent ids are neighbours, far values, the borders 0 / 1 / 9_999_999, values >= 10^7 and near u32::MAX, and aliases of present ids under power-of-two masks / decimal moduli such as id + k*2^24; one history in eight closes with add_parent(x, x) or with the reverse of an accepted link or chain of two links: such a cycle-closing call is accepted on the unchanged tree, where the history then ends, and must be without effect if it is rejected) -> add_gene/add_*_disease and annotate_* over present and absent terms (failing calls carry a different record name) -> calculate_information_content -> build_minimal / build_with_defaults, set_hpo_version in a generated typestate; 20-50 % of the calls fail by construction. Deterministic histories in their own processes: more than 65 535 new_term calls; chains of 300 (thorough 3 000) terms with ids ascending / descending with depth and accepted and rejected annotate_* calls at many depths. Stateful oracle: an interpreter of the history over plain sets predicts every Ok/Err; the built ontology is walked through the complete read API under catch_unwind (every handed-out id must resolve); its snapshot must equal the reference model of the successful calls AND the snapshot of the ontology built from the successful calls alone. evaluations = Builder calls. Non-trivial = >=1 failing add_parent with a present parent, >=1 failing annotate_*, and a later successful annotate on the same record; distinct by hash of the history.".into()
     }
     fn assumptions(&self) -> Vec<String> {
         vec![
@@ -442,7 +482,7 @@ impl Property for C15 {
         }
     }
     fn required_labels(&self, _tier: Tier) -> Vec<&'static str> {
-        vec!["nontrivial", "failing-add_parent(present parent, absent child)", "failing-add_parent(absent parent, present child)", "failing-annotate", "duplicate-new_term", "absent-id-0", "build_with_defaults", "record-mentioned-only-by-failing-calls", "absent-id-equal-to-a-present-id-mod-2^24", "bulk>65535-terms", "add_parent(x,x)-accepted:history-ends"]
+        vec!["nontrivial", "failing-add_parent(present parent, absent child)", "failing-add_parent(absent parent, present child)", "failing-annotate", "duplicate-new_term", "absent-id-0", "build_with_defaults", "record-mentioned-only-by-failing-calls", "absent-id-equal-to-a-present-id-mod-2^24", "bulk>65535-terms", "add_parent(x,x)-accepted:history-ends", "cycle-closing-add_parent-accepted:history-ends", "chain>255-links"]
     }
     fn run_generated(&self, tier: Tier, seed: u64, n: u64, stats: &mut Stats) -> Option<(Value, Failure)> {
         run_typed(strategy(tier), seed, n, stats, check)
@@ -459,12 +499,23 @@ impl Property for C15 {
             }
             return Ok(r);
         }
+        if let Some(b) = case.get("deep") {
+            let v: (u32, bool) = serde_json::from_value(b.clone()).map_err(|e| e.to_string())?;
+            stats.cases += 1;
+            let r = check(&deep_history(v.0, v.1), stats);
+            if r.is_ok() {
+                stats.label("chain>255-links");
+            }
+            return Ok(r);
+        }
         replay_typed::<Case, _>(case, stats, check)
     }
     fn isolated_plans(&self, tier: Tier, seed: u64) -> Vec<Value> {
-        let mut out = vec![json!({"bulk": (65_560u32, (seed % 7) as u32)})];
+        let mut out = vec![json!({"bulk": (65_560u32, (seed % 7) as u32)}), json!({"deep": (300u32, true)}), json!({"deep": (300u32, false)})];
         if tier == Tier::Thorough {
             out.push(json!({"bulk": (131_200u32, (seed % 5) as u32)}));
+            out.push(json!({"deep": (3_000u32, true)}));
+            out.push(json!({"deep": (2_000u32, false)}));
         }
         out
     }
